@@ -39,7 +39,7 @@ ID_HELPERS = {
 
 
 class Frame:
-    __slots__ = ("func", "ctx", "selfterm", "localfuncs", "depth", "parent", "callnode", "argterms")
+    __slots__ = ("func", "ctx", "selfterm", "localfuncs", "depth", "parent", "callnode", "argterms", "on_yield")
 
     def __init__(self, func, ctx, selfterm, depth, parent=None, callnode=None, argterms=frozenset()):
         self.func = func
@@ -50,6 +50,7 @@ class Frame:
         self.parent = parent
         self.callnode = callnode
         self.argterms = argterms
+        self.on_yield = None
 
     def site_for(self, node, terms):
         """the frame / node where the path of a primitive was decided: walk up while the
@@ -86,6 +87,7 @@ class Interp(ExprMixin):
         self.attr_assigns = {}  # self.<attr> -> valset (flow-insensitive, this run)
         self.path_attrs = path_attrs if path_attrs is not None else {}
         self.alias = {}
+        self._pending_on_yield = None
         self.assume = None      # scenario runs: atom -> True / False / None
         self.dynamic_ops = {}   # (function, line) -> LockOp matched with the resolver
         self._partition = None
@@ -198,6 +200,13 @@ class Interp(ExprMixin):
     def st_Expr(self, s, st, frame, out):
         if is_logging_stmt(s):
             return st
+        if isinstance(s.value, ast.Yield) and frame.on_yield is not None:
+            # body of a `with <contextmanager>()` statement runs here
+            if s.value.value is not None:
+                yv, st = self.eval(s.value.value, st, frame, out)
+            else:
+                yv = V(NONE)
+            return frame.on_yield(st, yv, out)
         _, st = self.eval(s.value, st, frame, out)
         return st
 
@@ -577,6 +586,10 @@ class Interp(ExprMixin):
         if op is not None:
             self.dynamic_ops[(frame.func.qual, s.lineno)] = op
             return self.lock_with(op, s, st, frame, out)
+        if len(s.items) == 1 and isinstance(s.items[0].context_expr, ast.Call):
+            cm = self.resolve_ctxmgr(s.items[0].context_expr, st, frame)
+            if cm is not None:
+                return self.with_ctxmgr(cm, s, st, frame, out)
         bound = []
         for item in s.items:
             val, st = self.eval(item.context_expr, st, frame, out)
@@ -612,6 +625,73 @@ class Interp(ExprMixin):
         if o.cont is not None:
             out.cont = join(out.cont, leave(o.cont))
         return leave(o.normal)
+
+    def resolve_ctxmgr(self, call, st, frame):
+        fn = call.func
+        f = None
+        if isinstance(fn, ast.Attribute) and isinstance(fn.value, ast.Name) and fn.value.id == "self" and frame.func.cls:
+            f = self.p.method(frame.func.cls, fn.attr)
+        elif isinstance(fn, ast.Name):
+            f = frame.localfuncs.get(fn.id) or self.p.funcs.get(fn.id)
+        if f is not None and getattr(f, "is_ctxmgr", False):
+            return f
+        return None
+
+    def with_ctxmgr(self, f, s, st, frame, out):
+        """`with self._claimed(x) as v: BODY` for an @contextmanager generator: the generator's body
+        is inlined and BODY runs at its `yield` (exceptions of BODY surface at the yield, a
+        return/break/continue of BODY resumes the generator normally and is re-issued after it)"""
+        call = s.items[0].context_expr
+        args, kw, st = self.eval_args(call, st, frame, out)
+        pending = {"ret": None, "retval": EMPTY, "brk": None, "cont": None}
+        caller_frame = frame
+
+        def on_yield(gst, yv, gout):
+            genv = gst.env
+            bst = gst.set(env=caller_env_box[0])
+            if s.items[0].optional_vars is not None:
+                bst = self.assign(s.items[0].optional_vars, yv, bst, caller_frame, gout)
+            o = self.exec_block(s.body, bst, caller_frame)
+            for l in o.raises:
+                for x in o.raise_states(l):
+                    gout.add_raise(l, x.set(env=genv))
+            res = o.normal
+            for pst, pval in o.ret_parts():
+                pending["ret"] = join(pending["ret"], pst)
+                pending["retval"] = pending["retval"] | pval
+                res = join(res, pst)
+            if o.brk is not None:
+                pending["brk"] = join(pending["brk"], o.brk)
+                res = join(res, o.brk)
+            if o.cont is not None:
+                pending["cont"] = join(pending["cont"], o.cont)
+                res = join(res, o.cont)
+            if res is None:
+                return None
+            caller_env_box[0] = res.env
+            return res.set(env=genv)
+
+        caller_env_box = [st.env]
+        selfargs = [V(frame.selfterm)] if (f.cls and not f.is_static and frame.selfterm is not None) else []
+        # inline with the yield hook installed on the callee frame
+        self._pending_on_yield = on_yield
+        try:
+            _, after = self.inline(f, selfargs + list(args), kw, st, frame, call, out, selfterm=frame.selfterm)
+        finally:
+            self._pending_on_yield = None
+        if after is None:
+            return None
+        after = after.set(env=caller_env_box[0])
+        if pending["ret"] is not None:
+            out.add_return(after, pending["retval"])
+        if pending["brk"] is not None:
+            out.brk = join(out.brk, after)
+        if pending["cont"] is not None:
+            out.cont = join(out.cont, after)
+        if pending["ret"] is not None and pending["brk"] is None and pending["cont"] is None:
+            # conservatively also continue normally unless BODY always returned
+            pass
+        return after
 
     def with_exit(self, val, ent, item, st, frame, out, node):
         for t in val:
